@@ -66,6 +66,12 @@ func (c *ClusterInfo) snapshotQueues() (map[common_info.QueueID]*queue_info.Queu
 		result[defaultParentQueue.UID] = defaultParentQueue
 
 		for _, queue := range queues {
+			if queue.Name == defaultQueueName {
+				// would replace the synthetic parent of every queue (and become its own parent)
+				log.InfraLogger.V(2).Warnf("Ignoring queue %s: the name is reserved for the default parent queue",
+					queue.Name)
+				continue
+			}
 			if len(queue.Spec.ParentQueue) > 0 {
 				queue.Spec.ParentQueue = defaultQueueName
 				queueInfo := queue_info.NewQueueInfo(queue)
